@@ -190,6 +190,11 @@ class Runtime:
             pred = f.get("pred")
             if pred and any(rec["a"].get(p) != v for p, v in pred.items()):
                 continue
+            rpred = f.get("run_pred")  # predicate on the INPUT VALUES of the graph run this invocation belongs to (map items)
+            if rpred:
+                rv = self.run_values.get(rec["r"]) or {}
+                if any(rv.get(p, "<absent>") != v for p, v in rpred.items()):
+                    continue
             if f.get("depth") is not None and f["depth"] != len(self.labels.get(rec["r"], ())):
                 continue
             return f
